@@ -217,7 +217,7 @@ pub fn run(g: &mut Global) {
         },
         &check,
     );
-    g.random("random", g.tier.pick(20000, 80000), &|| strategy(1, 300), &check);
+    g.random("random", g.tier.pick(60000, 300000), &|| strategy(1, 300), &check);
     if g.tier == Tier::Thorough {
         g.random("long", 800, &|| strategy(3000, 8000), &check);
     }
